@@ -30,17 +30,17 @@ NA = {
  "C29": "pure: both operand orders are built under the same process state, so counters and salts cancel; falsified only by a particular operand pair",
 }
 CHECKS = {
- "C12": dict(design="4.1", technique="deterministic simulation: replicated build of one seeded form program on N simulated UFL processes (hash salts, counter histories, cache warmth, aborted/interrupted noise ops); signatures compared across replicas",
-   text="Seeded search over process histories and configurations: every run builds the same generated form program on a pristine reference node and on perturbed nodes (other PYTHONHASHSEED, shifted creation counters incl. digit boundaries, warmed caches, interleaved noise constructions, interrupted/aborted noise ops, second build in the same process) and requires identical signatures of constructed and derived forms. Sampling, not proof.",
+ "C12": dict(design="4.1", technique="deterministic simulation: replicated build of one seeded form program on N simulated UFL processes (hash salts, counter histories, cache warmth, aborted/interrupted noise ops, observations and algorithms on the program's own objects at other times, checkpoint-crash-restart-reload under the same or another hash seed); signatures compared across replicas",
+   text="Seeded search over process histories and configurations: every run builds the same generated form program on a pristine reference node and on perturbed nodes (other PYTHONHASHSEED, shifted creation counters incl. digit boundaries, warmed caches, interleaved noise constructions, interrupted/aborted noise ops incl. injected allocation failures, foreign objects with explicit ids/counts, read-only observations and public algorithms applied to the program's own objects at other times, second build in the same process, checkpoint of everything built so far + crash + restart as a fresh process + reload) and requires identical signatures of constructed and derived forms. Sampling, not proof.",
    note="Trusts: element stubs (sim/elements.py) with salt-independent reprs; the planner's well-typedness facts; CPython. Signatures are compared only between replicas of the same program, so no external oracle is trusted."),
  "C13": dict(design="4.2", technique="deterministic simulation: object pools on several simulated processes, seeded comparison/hash/repr/pickle histories, pickles over a simulated transport with dup/reorder/delay/crash-restart; equivalence/coherence clauses as invariants",
-   text="Seeded histories of comparisons, hashing, set lookups, pickling, eval(repr) and cross-process shipping (duplication, reordering, delay, crash and restart of nodes with different hash salts, interrupts inside comparisons) over pools of generated expressions/forms and near-duplicates; invariants E1-E8 (equivalence, == implies equal hash/repr/shape/signature/value, stability of snapshots, round trips) after every step. Sampling, not proof.",
+   text="Seeded histories of comparisons, hashing, set lookups, pickling, eval(repr) and cross-process shipping (duplication, reordering, delay, crash and restart of nodes with different hash salts, interrupts and allocation failures inside comparisons, rejected constructor calls, no-op simplifications that re-initialise pool members, form arithmetic on members with a history) over pools of generated expressions/forms and near-duplicates; invariants E0-E8 (equivalence, == implies equal hash/repr/shape/signature/value, stability of snapshots, round trips) after every step. Sampling, not proof.",
    note="Trusts: element stubs with class-faithful, eval-able reprs; UFL's own point evaluator used differentially only; NaN literals excluded."),
  "C20": dict(design="4.3", technique="deterministic simulation: seeded interleavings of type registration / algorithm instantiation (incl. interrupted) / application, checked against an MRO reference model and a types-first twin process",
-   text="Seeded interleavings of registering new Expr types, defining/instantiating MultiFunction- and Transformer-based algorithm classes (first instantiation optionally cut short by an injected interrupt or stack squeeze) and applying old and new instances to old and new types; every dispatch is compared with a 20-line nearest-ancestor reference model and with a twin process that registered all types first. Sampling, not proof.",
-   note="Trusts: the reference model of the dispatch rule; new types are well-formed single-inheritance @ufl_type classes."),
+   text="Seeded interleavings of registering new Expr types (abstract or concrete bases, subclasses of concrete geometric quantities and compound operators, two UFL bases), defining/instantiating/dropping MultiFunction-, Transformer- and DAGTraverser-based algorithm classes (first instantiation or a dispatch optionally cut short by an injected interrupt, allocation failure or stack squeeze), registering DAGTraverser rules late, and applying old and new instances - harness classes and long-lived instances of UFL's own algorithm classes - to old and new types; every dispatch is compared with a nearest-ancestor reference model and with a twin process that registered all types first. Sampling, not proof.",
+   note="Trusts: the reference model of the dispatch rule; new types are well-formed @ufl_type classes (a rejected registration is outside the statement)."),
  "C27": dict(design="4.4", technique="deterministic simulation: shared object pool + immutable snapshot model; seeded sequences of public algorithms/form operators incl. naturally aborting, interrupted and stack-exhausted ones; snapshots compared after every step",
-   text="Seeded sequences of public algorithms and form operators over a pool of forms/expressions/metadata dicts that share sub-DAGs and measures, with operations that abort naturally, are interrupted at a seeded UFL line event or run out of stack; after every step the snapshot (repr, hash, cached and from-scratch signature, arguments, coefficients, constants, integral metadata) of every earlier object must be unchanged. Sampling, not proof.",
+   text="Seeded sequences of public algorithms and form operators over a pool of forms/expressions/metadata dicts that share sub-DAGs and measures, with operations that abort naturally, are interrupted at a seeded UFL line event or run out of stack or memory; base forms (FormSum, Matrix, Action, Adjoint, base form operators) included; after every step the snapshot (repr, hash, cached and from-scratch signature, arguments, coefficients, constants, integral metadata) of every earlier object must be unchanged. Sampling, not proof.",
    note="Trusts: snapshot functions read-only; element stubs."),
 }
 def manifest(claimed):
